@@ -31,7 +31,7 @@ def main(argv):
     chk = common.Check(pid, tier, seed)
     try:
         mod.run(chk)
-    except Exception:
+    except (Exception, common.InfraTimeout):
         chk.infra_error = traceback.format_exc()
         chk.notes.append('infrastructure error: ' + chk.infra_error[-1500:])
         try:
